@@ -455,7 +455,7 @@ def _work(args):
 # ---------------------------------------------------------------------------------------------------------------------
 #  naming a disagreement: shrink the instance, then key = direction + violated rules + explanatory feature tags
 # ---------------------------------------------------------------------------------------------------------------------
-EXPLAIN = ('nil', 'skip:', 'lax:', 'cdata', 'charref', 'ws-only', 'ws-in-empty', 'comment-in', 'xsi-type', 'cm:', 'wildcard-', 'substitution-member', 'overlapping-wildcards',
+EXPLAIN = ('attribute-fixed:', 'element-fixed:', 'nil', 'skip:', 'lax:', 'cdata', 'charref', 'ws-only', 'ws-in-empty', 'comment-in', 'xsi-type', 'cm:', 'wildcard-', 'substitution-member', 'overlapping-wildcards',
            'prohibited-attribute-present', 'attribute-wildcard', 'element-default', 'element-fixed', 'mixed-text', 'value-with-whitespace')
 
 
@@ -463,7 +463,12 @@ def explain(feats):
     f = sorted(x for x in feats if x.startswith(EXPLAIN))
     if any(x.startswith('nil') and x != 'nil' for x in f):
         f = [x for x in f if x != 'nil']
-    return '+'.join(f)
+    if any(x.startswith('skip:xsi-') for x in f):
+        f = [x for x in f if x != 'skip:declared-element']
+    if 'ws-only-simple-content' in f:
+        f = [x for x in f if x not in ('element-default', 'element-fixed')] + ['element-value-constraint'] if any(x in f for x in ('element-default', 'element-fixed')) else f
+    f = [x for x in f if x not in ('element-default-applied', 'element-fixed-applied') or not any(y.startswith(('nil', 'skip:', 'cdata', 'ws-only')) for y in f)]
+    return '+'.join(sorted(f))
 
 
 def reductions(root, bld, schema):
@@ -480,6 +485,8 @@ def reductions(root, bld, schema):
             ops.append(('nil', 0))
         if ei > 0 and (e0.ns, e0.local) in schema.elems and (e0.kids or e0.attrs):
             ops.append(('min', 0))
+        if ei > 0 and (e0.ns, e0.local) in schema.elems and schema.elems[(e0.ns, e0.local)].subst is not None:
+            ops.append(('head', 0))
         for op, i in ops:
             c = root.copy()
             e = xg.all_elements(c)[ei]
@@ -493,6 +500,11 @@ def reductions(root, bld, schema):
                 e.xtype = None
             elif op == 'nil':
                 e.nil = None
+            elif op == 'head':
+                h = schema.elems[(e.ns, e.local)].subst
+                while h.subst is not None:
+                    h = h.subst
+                e.ns, e.local = h.ns, h.local
             else:
                 m = bld.min_instance(schema.elems[(e.ns, e.local)])
                 if xg.ser(m) == xg.ser(e):
@@ -541,7 +553,7 @@ class Shrinker:
             el = out[it['idx']][2]
             res = out[it['idx']][3]
             state.append({'it': it, 's': s, 'bld': bld, 'val': val, 'el': el, 'res': res, 'active': True, 'rules0': set(res.errors)})
-        for rnd in range(30):
+        for rnd in range(16):
             cases = []
             plan = []
             for k, st in enumerate(state):
@@ -555,7 +567,7 @@ class Shrinker:
                     if not r.valid and not set(r.errors) <= st['rules0']:
                         continue
                     cands.append((c, r))
-                    if len(cands) >= 40:
+                    if len(cands) >= 30:
                         break
                 if not cands:
                     st['active'] = False
@@ -714,6 +726,7 @@ def stage_generated(ck, binary, tier, nproc, cov):
                     cid = 's%d.i%d.%s' % (w['si'], i, '.'.join(map(str, cfg)))
                     cases.append(mk_case(cid, cfg, w['ents'], wrap_single(w['tns'], inst[i][2])))
                     meta[cid] = (w, [i], True, cfg)
+            ck.note('chunk %d: %d schemas generated, %d cases' % (c0, len(works), len(cases)))
             recheck = []        # (w, i, cfg, class seen in the batch)
             confirmed = []      # (w, i, cfg, class, codes, positions) -- seen on a stand-alone document
             rounds = 0
@@ -789,6 +802,7 @@ def stage_generated(ck, binary, tier, nproc, cov):
                                 sampled[0] += 1
                                 ck.sample({'schema': w['docs'][0][1].decode()[:3000], 'instance': xml[:600], 'expected': 'valid; reported types/defaults equal governing declarations', 'config': list(cfg), 'observed': 'no error; tree compared (%s)' % mode})
                 cases = nxt
+            ck.note('chunk %d: main runs done (%d rounds), %d to re-check' % (c0, rounds, len(recheck)))
             # disagreements seen in a batch: decide on the stand-alone document
             if recheck:
                 rc = []
@@ -822,6 +836,7 @@ def stage_generated(ck, binary, tier, nproc, cov):
                 (w, i, cfg, cls, ecodes, pos) = m
                 f_, label, xml, rules, tree, feats = w['instances'][i]
                 groups.setdefault((cls, rules, explain(feats), tuple(ecodes)), []).append(m)
+            ck.note('chunk %d: re-check done, %d confirmed in %d signatures' % (c0, len(confirmed), len(groups)))
             reps = [g[0] for g in groups.values()]
             items = [{'si': w['si'], 'idx': i, 'cfg': cfg, 'obs': cls, 'docs': w['docs'], 'tns': w['tns'], 'codes': ec, 'pos': ps} for (w, i, cfg, cls, ec, ps) in reps]
             shrunk = shr.run(items) if items else []
